@@ -107,6 +107,9 @@ _Bool nondet_bool(void); unsigned long nondet_u64(void); unsigned short nondet_u
 #define NONDET__Bool nondet_bool()
 #define NONDET(T, name) T name = NONDET_##T
 
+#define ND_SV(v) sv_t v; (v).n = nondet_size(); MAKE_SV(v)
+#define ND_SV2(v) sv_t v; (v).n = nondet_size(); MAKE_SV2(v)
+
 /* ---------------------------------------------------------------- string_view, read-only */
 static inline size_t sv_size(sv_t v) { return v.n; }
 static inline _Bool sv_empty(sv_t v) { return v.n == 0; }
